@@ -125,6 +125,7 @@ PerfectClause(c) ==
 EvalClause(c) ==
     IF Paired(c) = {} THEN "ok"   \* no gt frame has a prediction frame: Evaluator refuses by design
     ELSE IF c.raised # "" THEN "evaluate_raised"
+    ELSE IF ~c.reeval_same THEN "second_evaluate_differs_from_first"
     ELSE IF StructClause(c) # "ok" THEN StructClause(c)
     ELSE IF DistClause(c) # "ok" THEN DistClause(c)
     ELSE IF Len(c.obs.pairs) = 0 THEN (IF c.obs.empty THEN "ok" ELSE "no_pairs_but_voc_not_empty")
